@@ -49,6 +49,7 @@ import re
 from ..cfg import CFG
 from ..core import (AnalysisError, call_name, const_str, dotted, kwarg,
                     last_attr, names_in, qualname, short, txt, walk)
+from ..normalize import inline_helpers
 from ..lib_C02 import (Arr, ClassModel, Ev, Feat, Mini, ModelFault, NS,
                        SelfModel, numpy_model)
 
@@ -740,9 +741,14 @@ def r122(ctx, repo):
     for func, cls in functions_with_class(repo, CORE):
         if func.name in ("_apply_scale", "get_kde_spacing"):
             continue
-        sc = scaling_calls(func)
-        if not sc:
+        if not scaling_calls(func):
             continue
+        # private helpers extracted from the function (e.g. a helper that
+        # returns the filtered (x, y) pair) are followed: their body is
+        # inlined, tuples are unpacked position by position
+        func = inline_helpers(repo, CORE, func,
+                              keep=("_apply_scale", "get_kde_spacing"))
+        sc = scaling_calls(func)
         ax = Axes(func)
         cnt = {}
         scaled = set()
@@ -966,11 +972,14 @@ def r123(ctx, repo):
     mini = Mini(g)
     mini.bind_module(repo.tree(KDE))
     calls = []
+    returned = []
 
     def estimator(events_x, events_y, xout=None, yout=None, *a, **k):
         calls.append((events_x, events_y, xout, yout, a, k))
         pos = events_x if xout is None else xout
-        return Arr([("dens", p.i) for p in pos], "num")
+        out = Arr([("dens", p.i) for p in pos], "num")
+        returned.append(out)
+        return out
     estimator.__doc__ = "doc"
     wrapped = mini.call(f, (estimator,))
     if not callable(wrapped):
@@ -1046,6 +1055,12 @@ def r123(ctx, repo):
                 res is c for c in calls[0][:4]):
             bad["fresh"] = bad["fresh"] or (
                 f"{tag}: the result aliases an input array")
+        if any(res is r for r in returned):
+            bad["fresh"] = bad["fresh"] or (
+                f"{tag}: the wrapper hands out the estimator's own array "
+                f"(for a memoised estimator the cached object: an in-place "
+                f"edit by one caller changes what the next analysis gets)")
+        returned.clear()
     texts = {
         "events": "the wrapped estimator receives exactly the events finite "
                   "in both coordinates",
@@ -1053,7 +1068,8 @@ def r123(ctx, repo):
                      "positions (none when no positions are given)",
         "result": "densities land at their positions, invalid positions "
                   "are NaN",
-        "fresh": "the result is a freshly allocated array",
+        "fresh": "the result is a freshly allocated array (neither an "
+                 "input nor the estimator's own array)",
         "args": "further arguments are passed through unchanged",
     }
     for k in ("events", "positions", "result", "fresh", "args"):
@@ -1463,6 +1479,7 @@ def r126(ctx, repo):
                          "downsampling": NS("downsampling",
                                             downsample_grid=grid)})
             mini.g["RTDCBase"] = ClassModel(mini, cls)
+            mini.bind_module(repo.tree(CORE))
             n = len(mask)
 
             class Me(SelfModel):
@@ -1821,5 +1838,37 @@ TWINS = list(TWINS) + [
        "        return self._finite(x)\n\n"
        "    @staticmethod\n    def _finite(x):\n"
        "        bad = np.isnan(x) | np.isinf(x)\n        return x[~bad]\n")]),
+]
+
+
+_HELPER_XY = ("    def _get_filtered_xy(self, xax, yax):\n"
+              "        x = self[xax][self.filter.all]\n"
+              "        y = self[yax][self.filter.all]\n"
+              "        return x, y\n\n"
+              "    def get_downsampled_scatter(self,")
+_USE_XY = "        x, y = self._get_filtered_xy(xax, yax)\n"
+
+TWINS = list(TWINS) + [
+    ("filtered (x, y) pair from a private helper", CORE,
+     # (usages first: the helper text contains the replaced lines)
+     [(X_SEL + Y_SEL, _USE_XY, 0),
+      (X_SEL + Y_SEL, _USE_XY, 1),
+      ("    def get_downsampled_scatter(self,", _HELPER_XY)]),
+    ("downsample_grid imported by name", CORE,
+     [("from .. import downsampling\n",
+       "from ..downsampling import downsample_grid\n"),
+      ("downsampling.downsample_grid(xs, ys,", "downsample_grid(xs, ys,")]),
+]
+
+MUTANTS = list(MUTANTS) + [
+    ("helper hands back (y, x) for (x, y)", CORE,
+     [(X_SEL + Y_SEL, _USE_XY, 0),
+      ("    def get_downsampled_scatter(self,",
+       _HELPER_XY.replace("return x, y", "return y, x"))], "R12.2"),
+    ("helper hands back unfiltered y", CORE,
+     [(X_SEL + Y_SEL, _USE_XY, 0),
+      ("    def get_downsampled_scatter(self,",
+       _HELPER_XY.replace("y = self[yax][self.filter.all]",
+                          "y = self[yax]"))], "R12.1"),
 ]
 
